@@ -1774,8 +1774,12 @@ where
                     packet.topic_name(),
                     ta
                 );
-                if let Some(ref mut topic_alias_send) = self.topic_alias_send {
-                    topic_alias_send.insert_or_update(packet.topic_name(), ta);
+                // Only a PUBLISH that goes out now binds the alias at the receiver: a packet that
+                // is merely stored is transmitted later with its full topic and without alias.
+                if self.status == ConnectionStatus::Connected {
+                    if let Some(ref mut topic_alias_send) = self.topic_alias_send {
+                        topic_alias_send.insert_or_update(packet.topic_name(), ta);
+                    }
                 }
             } else {
                 events.push(GenericEvent::NotifyError(MqttError::PacketNotAllowedToSend));
